@@ -6,6 +6,7 @@ COMMON_TB = [
     "Go harness generators/encoders (harness/*.go) and the decoders in coq/Harness.v",
     "modelling assumption: float64 arithmetic of the kernels is exact on the domain D (coordinates k*2^-s, |k| <= 2^23); validated by the correspondence stream, not proved",
     "hand-written Gallina mirrors of the Go functions (modelled, not verified); Go compiler/runtime outside the model",
+    "tools/gen_consts.py: regular-expression translator of the source's numeric constants into kernel-checked goals (model constant = source value), run in every check",
 ]
 
 import classes
@@ -123,7 +124,8 @@ GEO_TB = ["Coq 8.16.1 kernel; the stdlib real-number axioms (ClassicalDedekindRe
           "Interval 4.x tactic (coq-interval, uses primitive integers / BigZ; kernel-checked enclosures) for the per-input tie",
           "the real-valued model coq/Sphere.v is hand-written from geo/geo.go and circle.go (modelled, not verified); Go's math package (Sin, Cos, Asin, Atan2, Hypot, Mod) is outside the model and is tied per input by the certified enclosures, not for all inputs",
           "the clause flags are computed by the harness from the implementation's own float64 answers with the tolerances of the property statements (harness/geo.go)",
-          "tools/geo_goals.py (float64 bits -> exact rationals, goal text)"]
+          "tools/geo_goals.py (float64 bits -> exact rationals, goal text)",
+          "tools/gen_consts.py: earthRadius of the model tied to the source by a kernel-checked goal in every check"]
 PROPS["C15"] = dict(streams=["C15"], kernel_cases=0, timeout=600,
     rule="random pairs of locations (poles, +-1e-9 of poles, antimeridian, antipodal and neighbouring pairs), distances 0, sub-millimetre, around 0.3 m, metre, km scales, near half the circumference, all bearings incl. multiples of 45 deg; per case 10 clause flags (symmetric, zero, range, destination in range, distance back, bearing back, haversine monotone, metres<->haversine, normalisation idempotent / haversine unchanged, semicircle round trip) + a sample of cases certified by interval arithmetic against the real-valued model. non-trivial: all; distinct = distinct case lines",
     trusted_base=GEO_TB, assumptions=["bearing-back clause applied for d >= 1 m, |lat| <= 89 deg, d <= half circumference - 1000 km, tolerance 1e-6 deg scaled by conditioning 1/(sin(d/R) cos lat)"],
